@@ -470,7 +470,8 @@ def invalid_cells(tier: str, seed: int):
                     ents = ["self", "ce"] + ([] if t == "c0" else ["env"])
                     for entry in ents:
                         plans += [("kraus-not-trace-preserving", entry, [t], {}), ("kraus-wrong-size", entry, [t], {}),
-                                  ("povm-wrong-size", entry, [t], {})]
+                                  ("povm-wrong-size", entry, [t], {}),
+                                  ("kraus-not-trace-preserving", entry, [t], {"ktype": ("imaginary-overlap", "real-overlap", "one-diagonal-entry", "too-large")[(si + len(plans)) % 4]})]
                         if t != "e0.f":     # a Fock space is resized to the dimension of a custom operator: not an invalid request
                             plans.append(("custom-operator-wrong-size", entry, [t], {}))
                         if entry != "self":
@@ -483,7 +484,7 @@ def invalid_cells(tier: str, seed: int):
                           ("shrink-below-occupied-levels", "ce", ["e1.f"], {"new": -3})]
                 for what, entry, tg, extra in plans:
                     n += 1
-                    if quick and n % 5 != 0 and not (what == "wrong-kind-with-used-operation" and n % 2 == 0):
+                    if quick and n % 5 != 0 and not (what == "wrong-kind-with-used-operation" and n % 2 == 0) and not ("ktype" in extra and n % 3 == 0):
                         continue
                     if what == "shrink-below-occupied-levels" and cls == "basis":
                         continue
@@ -495,7 +496,7 @@ def invalid_cells(tier: str, seed: int):
                                         fock_dims=({"e0": 2} if what == "wrong-kind-with-used-operation" else None))
                     a = {"kind": "invalid", "what": what, "entry": entry, "targets": [LY.rename(spec, t) for t in tg],
                          "then": [dict(CONT[tg[0]], targets=[LY.rename(spec, tg[0])])] if tg[0] in CONT else [], **extra}
-                    cells.append(_cell(spec, tag, ltag, cls, bool(n % 2), seed, a, variant=what, ntargets=len(tg),
+                    cells.append(_cell(spec, tag, ltag, cls, bool(n % 2), seed, a, variant=what + (":" + extra["ktype"] if "ktype" in extra else ""), ntargets=len(tg),
                                        target_store="+".join(sorted({LY.block_of(blocks, t)[0] for t in tg}))))
     # vacuum annihilation: the target Fock is in |0> (possibly entangled partners elsewhere)
     for tag, blocks in (("own", []), ("env01", [("env", ["e0.f", "e0.p"])]), ("ps:f0,p1", [("ps", ["e0.f", "e1.p"])]), ("ps:c0,f0", [("ps", ["c0", "e0.f"])])):
